@@ -478,6 +478,31 @@ func main() {
 			e.Bool("csNormalizesInvalid", norm, "toLowerIfCaseInsensitive: the case-sensitive branch replaces invalid UTF-8 (same fact as C11's)")
 		}
 
+		// ---- single-binary glue: what the in-memory client hands to the store
+		if gf, err := r.Load("storeapi/client.go"); err != nil {
+			e.Missing("inMemoryBulk", err)
+		} else if fd := gf.Func("inMemoryAPIClient", "Bulk"); fd == nil {
+			e.Missing("inMemoryBulk", "inMemoryAPIClient.Bulk not found")
+		} else {
+			var evs []string
+			for _, st := range fd.Body.List {
+				evs = append(evs, gf.Render(st))
+			}
+			e.Strs("inMemoryBulk", evs, "storeapi.inMemoryAPIClient.Bulk: its statements (an owned clone is handed over, nothing is released or pooled)")
+			pooled := false
+			ast.Inspect(fd.Body, func(n ast.Node) bool {
+				switch x := n.(type) {
+				case *ast.DeferStmt:
+					pooled = true
+				case *ast.CallExpr:
+					if strings.HasPrefix(gf.Render(x.Fun), "bytespool.") || strings.Contains(gf.Render(x.Fun), "Pool") {
+						pooled = true
+					}
+				}
+				return true
+			})
+			e.Bool("inMemoryBulkReleasesOrPools", pooled, "inMemoryAPIClient.Bulk contains a defer or a pool call")
+		}
 		// ---- the configuration path: IngestorConfig.setDefaults and NewIngestor
 		if cf, err := r.Load("proxyapi/ingestor_config.go"); err != nil {
 			e.Missing("setDefaultsAssigns", err)
